@@ -1,0 +1,17 @@
+//go:build verif
+// +build verif
+
+package route
+
+import "gonum.org/v1/gonum/graph"
+
+// SimOrder, when non-nil, is handed every node slice that was filled by
+// iterating over a map, so that a simulator can own the (otherwise randomised)
+// iteration order. It may reorder the slice in place.
+var SimOrder func(nodes []graph.Node)
+
+func simOrderNodes(nodes []graph.Node) {
+	if SimOrder != nil {
+		SimOrder(nodes)
+	}
+}
